@@ -270,7 +270,7 @@ func httpCase(w *bufio.Writer, rng *prng.R, id string) {
 	if endPark != nil && endPark.WaitReached(1500*time.Millisecond) {
 		d.note("late-reload")
 		reload(0)
-		d.wg.Wait()
+		d.waitCalls(150 * time.Millisecond) // bounded: a repaired Run may exclude Reload until it has returned
 		d.quiet()
 		endPark.Release()
 	}
